@@ -8,6 +8,11 @@ from .engine import UF, u_fn, p_fn, CODE_BY_NAME, PyObj
 I = z3.IntSort()
 
 
+def _unpack_of_pack(eng):
+    c = getattr(eng, 'contract', None)
+    return c is not None and c.extra.get('unpack_of_pack')
+
+
 def _mk_u(nm):
     ch, size, lo, hi = CODE_BY_NAME[nm]
 
@@ -15,8 +20,13 @@ def _mk_u(nm):
         data, pos = args
         if data.ty[0] == 'opt':
             data = T.opt_val(data)
-        t = u_fn(nm)(data.t, z3.simplify(eng.num(pos).t))
+        pt = z3.simplify(eng.num(pos).t)
+        t = u_fn(nm)(data.t, pt)
         eng.axiom(z3.And(t >= lo, t <= hi))
+        if _unpack_of_pack(eng):
+            # unpack reads exactly the `size` octets at pos: u_x(data, pos) == up_x(data[pos:pos+size])
+            up = UF('up_' + nm, T.BytesSort, I)
+            eng.axiom(z3.Implies(z3.And(pt >= 0, pt + size <= z3.Length(data.t)), t == up(z3.Extract(data.t, pt, z3.IntVal(size)))))
         return V(INT, t)
     return f
 
@@ -25,8 +35,13 @@ def _mk_p(nm):
     ch, size, lo, hi = CODE_BY_NAME[nm]
 
     def f(eng, args, kwargs, fr, node):
-        t = p_fn(nm)(eng.num(args[0]).t)
+        vt = eng.num(args[0]).t
+        t = p_fn(nm)(vt)
         eng.axiom(z3.Length(t) == size)
+        if _unpack_of_pack(eng):
+            # ... and unpacking what pack produced gives the value back (struct's formats are bijections on their range)
+            up = UF('up_' + nm, T.BytesSort, I)
+            eng.axiom(z3.Implies(z3.And(vt >= lo, vt <= hi), up(t) == vt))
         return V(BYTES, t)
     return f
 
